@@ -296,6 +296,11 @@ fn gen_timespan(ch: &mut Choices, cfg: &Cfg, out: &mut String) -> TimeSpan {
     if cfg.canonical {
         return gen_timespan_canonical(ch, out);
     }
+    // the whole day, spelled out (printers and normalisers treat it specially)
+    if ch.chance(4) {
+        out.push_str(if ch.chance(80) { "00:00-24:00" } else { "0:00-24:00" });
+        return TimeSpan::fixed_range(ExtendedTime::MIDNIGHT_00, ExtendedTime::MIDNIGHT_24);
+    }
     let start = gen_time_start(ch, cfg, out);
     // `10:00+`
     if ch.chance(5) {
@@ -1250,7 +1255,7 @@ pub fn gen_rare_expr(ch: &mut Choices, year_hint: i32) -> String {
                 let (a, b) = ch.pick(&[(Month::November, Month::February), (Month::October, Month::May), (Month::December, Month::January), (Month::March, Month::June), (Month::December, Month::December), (Month::July, Month::June)]);
                 format!("{near_year}{}-{}", month_str(a), month_str(b))
             }
-            _ => format!("{near_year} {} {}-{} {}", month_str(ch.pick(&MONTHS)), ch.pick(&[1u8, 15, 28, 31]), near_year + ch.int(0, 2) as i32, ch.pick(&["Jan 10", "Dec 31", "Feb 29", "Jun 30"])),
+            _ => format!("{near_year} {} {}-{} {}", month_str(ch.pick(&MONTHS)), ch.pick(&[1u8, 15, 28, 31]), (near_year + ch.int(0, 2) as i32).min(9999), ch.pick(&["Jan 10", "Dec 31", "Feb 29", "Jun 30"])),
         };
         let modifier = ch.pick(&["", "", " off", " unknown", " \"x\""]);
         format!("{body}{time}{modifier}")
